@@ -101,6 +101,17 @@ def batch_oracle(lines, outs):
             res[k] = "ORACLE-DISAGREEMENT on closure"
     return res
 
+def explore_one(line, limit=8):
+    """the exhaustive exploration branches at every random draw and can be exponential: each input gets its own driver
+    process and a time limit; an exploration that does not finish is UNDECIDED (counted in the evidence), not a verdict"""
+    import subprocess
+    try:
+        p = subprocess.run([MODEL_EXE], input=line + "\n", capture_output=True, text=True, timeout=limit)
+        out = p.stdout.strip("\n")
+        return out if p.returncode == 0 and out else "!ExploreFailed"
+    except subprocess.TimeoutExpired:
+        return "!ExploreTimeout"
+
 def explore_oracle(lines, outs):
     """`explore` lines are answered by the MODEL only (decision over all random choices); the implementation side
     replays every reachable result's existence by sampling (stream `seeds`).  Here the property is evaluated on
@@ -108,7 +119,9 @@ def explore_oracle(lines, outs):
     res = [None] * len(lines)
     for k, l in enumerate(lines):
         gs = O.pad(lst(l.split(" ")[1]))
-        m = run_model([l])[0]
+        m = outs[k]
+        if m == "!ExploreTimeout":
+            continue
         f = fields(m)
         if m.startswith("!") or "results" not in f:
             res[k] = f"model: {m[:100]}"; continue
@@ -169,8 +182,8 @@ def build_streams(rng, tier):
         Stream("su(2^n)-generating-sets", lines, IO.handle, **kw),
         Stream("seeds-of-the-tie-breaking", seeds, IO.handle, **kw),
         Stream("inputs-already-at-the-target", boundary, IO.handle, **kw),
-        Stream("all-random-choices(model)", explore, lambda l: run_model([l])[0], batch_oracle=explore_oracle, model=False,
-               tag=lambda l, o: "explored", nontrivial=lambda l, o: ";" in o),
+        Stream("all-random-choices(model)", explore, explore_one, batch_oracle=explore_oracle, model=False,
+               tag=lambda l, o: "exploration-undecided(time limit)" if o == "!ExploreTimeout" else "explored", nontrivial=lambda l, o: ";" in o),
         Stream("target-number-of-pairs", edges, IO.handle, oracle=edges_oracle, nontrivial=lambda l, o: o != "-1"),
     ]
 
